@@ -142,8 +142,8 @@ def subchecks(tier):
                          "inf": 0.3, "capacity": 0.4, "prio_reroute": 0.5, "jockeying": 0.5})
     # re-routed (pre-empted) customers are routed too: JSQ / LB routers at pre-emptive 'reroute' nodes whose destinations have small finite
     # capacities, so that the shortest line is often that of a full node (re-routing ignores capacities)
-    wb = {"priorities": 1.0, "prio_preempt": 1.0, "prio_reroute": 1.0, "routing_objects": 1.0, "capacity": 0.8, "self_loops": 0.3, "batching": 0.3,
-          "inf": 0.1, "cc_waiting": 0.15, "discipline": 0.1}
+    wb = {"priorities": 1.0, "prio_preempt": 1.0, "prio_reroute": 1.0, "routing_objects": 1.0, "capacity": 0.8, "self_loops": 0.5, "batching": 0.3,
+          "inf": 0.1, "cc_waiting": 0.15, "discipline": 0.1, "schedule": 0.5, "sched_preempt": 1.0, "sched_reroute": 1.0}
     bal = S.Profile(list(wb), weights=wb, required=("priorities", "prio_preempt", "prio_reroute", "routing_objects"), numeric="grid", max_nodes=4,
                     max_classes=3, plans=("max_time",), horizon=(6.0, 16.0), budget=600, load="heavy", caps=(0, 0, 1, 2),
                     router_kinds=("jsq", "lb", "jsq", "prob"), routing_kinds=("network",), min_dests=2, excluded=common.EXCL["C09"])
@@ -156,7 +156,7 @@ def subchecks(tier):
     return [
         system_subcheck("reroute_balancing", bal, lambda spec: [Fidelity(spec)], bal_nontrivial, classes=bal_classes, obs=True,
                         n={"quick": 3600, "thorough": 20000},
-                        rule="JSQ / LB decisions for re-routed (pre-empted) customers with small finite capacities at the destinations; "
+                        rule="JSQ / LB decisions for re-routed customers (pre-emptive priorities and 're-route' schedules incl. zero-server shifts) with small finite capacities at the destinations; "
                              "non-trivial = >= 1 re-routing decision taken by a JSQ / LB router"),
         system_subcheck("system", prof, lambda spec: [Fidelity(spec)], nontrivial, classes=classes, obs=True,
                         n={"quick": 7200, "thorough": 40000}, rule="routing decisions vs spec with true populations"),
